@@ -250,6 +250,33 @@ Section EngineProofs.
     - rewrite Hk. destruct (process_request req st) as [[s r] t]; simpl in P; apply E; assumption.
   Qed.
 
+  Notation session_answer := (session_answer St Payload handler known).
+
+  Definition wire_version (r : wire_response) : ver :=
+    match r with WireError hv _ => hv | WireMessage hv _ => hv end.
+
+  Lemma version_echo_session' : forall (req : request Payload) st, known (rq_version req) = true ->
+    wire_version (snd (fst (session_handle req st))) = rq_version req.
+  Proof.
+    intros req st Hk; pose proof (version_echo_session req st Hk) as H.
+    destruct (snd (fst (session_handle req st))); simpl; assumption.
+  Qed.
+
+  (* every answer path after decoding carries the request's version *)
+  Lemma version_echo_all_paths : forall f (req : request Payload) st, known (rq_version req) = true ->
+    wire_version (snd (fst (session_answer f req st))) = rq_version req.
+  Proof.
+    intros f req st Hk; unfold Version.session_answer.
+    assert (D : request_decodes Payload known req = true).
+    { unfold request_decodes; destruct (rq_items req); [reflexivity | assumption]. }
+    rewrite D; simpl.
+    pose proof (version_echo_session' req st Hk) as E.
+    destruct f; try reflexivity.
+    - exact E.
+    - destruct (session_handle req st) as [[s r] t]; simpl in *; destruct r; simpl in *; assumption.
+    - destruct (session_handle req st) as [[s r] t]; simpl in *; destruct r; simpl in *; [assumption | reflexivity].
+  Qed.
+
   (* one item: a refused operation leaves the state alone and enters no handler *)
   Lemma run_item_refused : forall v it st, gate_runs v (it_op it) = false ->
     run_item v it st = (st, OutErr R_OPERATION_NOT_SUPPORTED, []).
